@@ -75,8 +75,17 @@ Record observation := {
   o_log : list Z;          (* [-1] absent, [] exists *)
   o_stderr_diag : bool;    (* a diagnostic must be visible on standard error *)
   o_log_diag : bool;       (* a diagnostic must be visible in the log file *)
-  o_recover : bool         (* recover_function_args handed to the processor (false when no plan) *)
+  o_recover : bool;        (* recover_function_args handed to the processor (false when no plan) *)
+  o_diag_kind : Z          (* the one diagnostic of the run: 0 none | 1 main's own rejection (error!) | 2 "Error reading dump" |
+                              3 "Error processing dump" | 4 main's "Error: <io error>" | 5 clap's usage error *)
 }.
+
+Definition diag_kind (f : flags) (e : env) : Z :=
+  let '(tr, code) := run f e in
+  if has_diag tr Logger then
+    match decide f with Rejected _ => 1 | _ => if e_read e then 3 else 2 end
+  else if has_diag tr Stderr then (if code =? 2 then 5 else 4)
+  else 0.
 
 Definition observe (f : flags) (e : env) (pre : path -> bool) : observation :=
   let '(tr, code) := run f e in
@@ -88,7 +97,8 @@ Definition observe (f : flags) (e : env) (pre : path -> bool) : observation :=
      o_log := match file_state e pre tr P_LOG with [-1] => [-1] | _ => [] end;
      o_stderr_diag := has_diag tr Stderr || (has_diag tr Logger && logger_visible && negb (is_some (f_log_file f)));
      o_log_diag := has_diag tr Logger && logger_visible && is_some (f_log_file f) && created tr P_LOG;
-     o_recover := match decide f with Plan p => po_recover (p_opts p) | _ => false end |}.
+     o_recover := match decide f with Plan p => po_recover (p_opts p) | _ => false end;
+     o_diag_kind := diag_kind f e |}.
 
 Definition mk_feature (z : Z) : feature :=
   if z =? 1 then StableAll else if z =? 2 then UnstableAll else StableBasic.
@@ -146,7 +156,8 @@ Definition observe_cli (o : cli_outcome) (e : env) (pre : path -> bool) : observ
        o_log := match file_state e pre mtr P_LOG with [-1] => [-1] | _ => [] end;
        o_stderr_diag := negb (to_stdout tr);
        o_log_diag := false;
-       o_recover := false |} in
+       o_recover := false;
+       o_diag_kind := if to_stdout tr then 0 else if code =? 2 then 5 else 0 |} in
   match o with
   | CliFlags f => observe f e pre
   | CliPanicFeatures f => match decide f with Plan _ => generic | _ => observe f e pre end
